@@ -3,8 +3,7 @@
 use std::collections::BTreeSet;
 
 use warp_core::{
-    make_strand_id, CausalPosture, ForkStrandRequest, ProvenanceStore, RuntimeError, StrandError,
-    WorldlineTick,
+    make_strand_id, CausalPosture, ForkStrandRequest, ProvenanceStore, StrandError, WorldlineTick,
 };
 
 use crate::uni::{Ctx, Lane, Universe};
@@ -409,6 +408,5 @@ impl Universe {
                 "registry copy operations changed the live registry",
             );
         }
-        let _: Option<RuntimeError> = None;
     }
 }
